@@ -8,5 +8,5 @@ for f in spec/*.tla; do
   if grep -qE "Semantic errors|Parse Error|Fatal errors" /tmp/sany.$$; then cat /tmp/sany.$$; rm -f /tmp/sany.$$; exit 1; fi
   rm -f /tmp/sany.$$
 done
-PYTHONPATH=/repo/src:. /venv/bin/python -W ignore -c "import harness.check, harness.tlc, harness.cascade_engine, harness.shm_engine, harness.drive.shm, harness.drive.acked, harness.p3, harness.drive.gateway, harness.drive.transfer, harness.drive.worker; import cascade.controller.impl"
+PYTHONPATH=/repo/src:. /venv/bin/python -W ignore -c "import harness.check, harness.tlc, harness.cascade_engine, harness.shm_engine, harness.drive.shm, harness.drive.acked, harness.p3, harness.drive.gateway, harness.drive.transfer, harness.drive.worker, harness.drive.session; import cascade.controller.impl"
 echo "setup ok"
